@@ -1,4 +1,7 @@
-"""C03 -- text layout structure: contracts on the real functions of urwid/text_layout.py.
+"""C03 -- text layout structure, second file: trim_line, LayoutSegment.subseg, calc_coords, calc_line_pos, calc_pos (and
+what they need) on the real functions of urwid/text_layout.py.  (contracts/C03_layout.py holds line_width, shift_line,
+align_layout, pack, layout and the primary LayoutSegment.__init__ contract; the contracts here on functions that file
+also covers are registered under the alias `layout2`: verified against the body, never used at other call sites.)
 
 A layout is a list of lines; a line is a list of segments; a segment is one of
     (cols, offs | None)          padding / end-of-line marker ("removed character hint")
@@ -96,18 +99,6 @@ def spec_line_width(line):
     return ite(has_shift(line), total - first, total)
 
 
-@contract(TL + "line_width", property="C03", replayable=False)
-class line_width:
-    params = dict(segs=LINE)
-    result = Int
-    raises = ()
-
-    def ensures(a, result):
-        yield "columns-of-all-segments-but-a-leading-shift", result == spec_line_width(a.segs)
-
-    loops = {0: Loop(invariant=lambda v: v.sc == colsum(v.seglist, v.i_))}
-
-
 def same_from(res, k1, src, k0, callee=False):
     """res[k1:] == src[k0:] (same length, same segments in the same order).  As a proof goal: for an ARBITRARY index
     (universal generalisation, quantifier-free); as a fact at a call site: the quantified statement."""
@@ -132,7 +123,7 @@ def _shift_ens(a, result, callee=False):
     yield "argument-not-modified", same_from(segs, 0, old, 0, callee)
 
 
-@contract(TL + "shift_line", property="C03", replayable=False)
+@contract(TL + "shift_line", property="C03", replayable=False, alias="layout2")
 class shift_line:
     params = dict(segs=LINE, amount=Union(Int, Const(1.5)))  # 1.5: a representative of "not an int"
     result = LINE
@@ -249,7 +240,7 @@ def _lseg_raises(exc_cls):
     return cond
 
 
-@contract(TL + "LayoutSegment.__init__", property="C03", replayable=False)
+@contract(TL + "LayoutSegment.__init__", property="C03", replayable=False, alias="layout2")
 class layout_segment_init:
     self_shape = LSEG
     constructs = LSEG
@@ -400,131 +391,18 @@ class layout_segment_subseg:
         return both(_isnone_f(s.text), lseg_wf(s, a.text))
 
 
-# ---- StandardTextLayout.align_layout / pack / layout
+# ---- layouts (lists of lines)
 
-STL = Obj(_tl.StandardTextLayout, {})
 LAYOUT = ListOf(ListOf(SEG3))
-ALIGN = Atom("left", "center", "right", "justify")   # "justify": a representative of an unsupported alignment
-
-
-def spec_pad(align, width, lw):
-    """The statement's alignment rule: pad by exactly 0, half (rounded up) or all of the spare columns."""
-    spare = width - lw
-    return ite(either(align == "left", spare == 0), 0, ite(align == "right", spare, (spare + 1) // 2))
-
-
-def aligned_line(out_line, in_line, align, width, callee=False):
-    """out_line is in_line with the statement's padding in front (one (pad, None) segment, none when the pad is 0)."""
-    lw = colsum(in_line, n_segs(in_line))
-    pad = spec_pad(align, width, lw)
-    k1 = ite(pad != 0, 1, 0)
-    return both(implies(pad != 0, elem_is(out_line, 0, (pad, None))), same_from(out_line, k1, in_line, 0, callee),
-                colsum(out_line, n_segs(out_line)) == pad + lw)
 
 
 def _row(layout, j):
     return Q.seq_get(layout, j)
 
 
-def _align_ens(old, s, a, result, callee=False):
-    n = Q.seq_len(a.old.segs)
-    known = either(a.align == "left", a.align == "center", a.align == "right")
-    yield "one-line-out-per-line-in", Q.seq_len(result) == n
-    if callee:
-        yield "each-line-padded-by-0-half-rounded-up-or-all-spare-columns", forall(0, n, lambda j: aligned_line(_row(result, j), _row(a.old.segs, j), a.align, a.width, True), check_empty=False)
-        yield "unknown-alignment-only-if-nothing-to-align", implies(neg(known), forall(0, n, lambda j: colsum(_row(a.old.segs, j), n_segs(_row(a.old.segs, j))) == a.width, check_empty=False))
-        return
-    j = V.arbitrary("row")
-    inr = both(0 <= j, j < n)
-    yield "each-line-padded-by-0-half-rounded-up-or-all-spare-columns", implies(inr, aligned_line(_row(result, j), _row(a.old.segs, j), a.align, a.width))
-    lw = colsum(_row(a.old.segs, j), n_segs(_row(a.old.segs, j)))
-    yield "a-line-that-fits-stays-within-the-width", implies(both(inr, lw <= a.width, known), colsum(_row(result, j), n_segs(_row(result, j))) <= a.width)
-    yield "unknown-alignment-only-if-nothing-to-align", implies(both(neg(known), inr), lw == a.width)
-
-
-def _align_inv(v):
-    j = V.arbitrary("row")
-    out, segs = v.out, v.segs
-    yield "one-line-out-per-line-done", Q.seq_len(out) == v.i_
-    if isinstance(out.seq, tuple) and not out.seq:
-        return  # the empty list at loop entry: nothing is done yet
-    yield "lines-done-are-aligned", implies(both(0 <= j, j < v.i_), aligned_line(_row(out, j), _row(segs, j), v.align, v.width))
-    yield "unknown-alignment-met-only-full-lines", implies(both(neg(either(v.align == "left", v.align == "center", v.align == "right")), 0 <= j, j < v.i_),
-                                                           colsum(_row(segs, j), n_segs(_row(segs, j))) == v.width)
-
-
-def no_shift_lines(layout):
-    """No line starts with a shift (amount, None): the lines come from calculate_text_segments, unaligned."""
-    return forall(0, Q.seq_len(layout), lambda j: neg(has_shift(_row(layout, j))), check_empty=False)
-
-
-@contract(TL + "StandardTextLayout.align_layout", property="C03", replayable=False)
-class align_layout:
-    self_shape = STL
-    params = dict(text=TEXT, width=Int, segs=LAYOUT, wrap=Atom("any", "space", "clip", "ellipsis"), align=ALIGN)
-    result = LAYOUT
-    raises = (ValueError,)
-    modifies = ()
-    ensures = staticmethod(_align_ens)
-    ensures_callee = staticmethod(lambda old, s, a, result: _align_ens(old, s, a, result, True))
-    loops = {0: Loop(invariant=_align_inv, shapes={"out": LAYOUT})}
-
-    def requires(s, a):
-        return no_shift_lines(a.segs)
-
-    def on_raise(old, s, a, exc):
-        yield "only-for-an-unknown-alignment", neg(either(a.align == "left", a.align == "center", a.align == "right"))
-
-
 def exists(lo, hi, fn):
     """Some integer j with lo <= j < hi satisfies fn(j) (dual of pyvc.values.forall, same treatment of side facts)."""
     return neg(forall(lo, hi, lambda j: neg(fn(j)), check_empty=False))
-
-
-def row_width(layout, j):
-    """line_width of line j of a layout (the columns of its segments, a leading shift ignored)."""
-    return spec_line_width(_row(layout, j))
-
-
-def _pack_ens(old, s, a, result, callee=False):
-    lay = a.old.layout
-    n = Q.seq_len(lay)
-    yield "layout-has-a-line", n > 0
-    all_below = forall(0, n, lambda k: row_width(lay, k) < a.maxcol, check_empty=False)
-    attained = either(result == 0, exists(0, n, lambda k: row_width(lay, k) == result))
-    if callee:
-        yield "maxcol-as-soon-as-a-line-reaches-it", implies(neg(all_below), result == a.maxcol)
-        yield "else-the-widest-line", implies(all_below, both(result >= 0, attained, forall(0, n, lambda k: row_width(lay, k) <= result, check_empty=False)))
-        return
-    j = V.arbitrary("row")
-    inr = both(0 <= j, j < n)
-    yield "maxcol-as-soon-as-a-line-reaches-it", implies(both(inr, row_width(lay, j) >= a.maxcol), result == a.maxcol)
-    yield "else-at-least-as-wide-as-every-line", implies(both(all_below, inr), row_width(lay, j) <= result)
-    yield "else-exactly-the-widest-line-or-zero", implies(all_below, both(result >= 0, attained))
-
-
-def _pack_inv(v):
-    j = V.arbitrary("row")
-    lay = v.layout
-    yield "widest-so-far-not-negative", v.maxwidth >= 0
-    yield "lines-so-far-below-maxcol-and-covered", implies(both(0 <= j, j < v.i_), both(row_width(lay, j) < v.maxcol, row_width(lay, j) <= v.maxwidth))
-    yield "widest-so-far-is-some-lines-width-or-zero", either(v.maxwidth == 0, exists(0, v.i_, lambda k: row_width(lay, k) == v.maxwidth))
-
-
-@contract(TL + "StandardTextLayout.pack", property="C03", replayable=False)
-class pack:
-    self_shape = STL
-    params = dict(maxcol=Int, layout=LAYOUT)
-    result = Int
-    raises = (ValueError,)
-    raises_iff = {ValueError: lambda s, a: Q.seq_len(a.layout) == 0}
-    modifies = ()
-    ensures = staticmethod(_pack_ens)
-    ensures_callee = staticmethod(lambda old, s, a, result: _pack_ens(old, s, a, result, True))
-    loops = {0: Loop(invariant=_pack_inv)}
-
-    def on_raise(old, s, a, exc):
-        yield "only-for-an-empty-layout", Q.seq_len(a.layout) == 0
 
 
 # ---- trim_line
@@ -587,7 +465,7 @@ def _trim_ens(a, result, callee=False):
         if k is not None:
             cols_mono(segs, wf, k + 1, n)
             cols_mono(segs, wf, imax(k, 1), n)
-    yield "columns-are-exactly-the-part-of-the-range-the-line-covers", colsum(result, n_segs(result)) == spec_trim_width(segs, a.start, a.end)   # FAILS-ON-TREE: trim_line([(2,0,2),(2,2,4),(2,4,6)], 'abcdef', 0, 3) has 6 columns (x is not advanced over segments kept whole)
+    yield "columns-are-exactly-the-part-of-the-range-the-line-covers", colsum(result, n_segs(result)) == spec_trim_width(segs, a.start, a.end)   # (failed before /repo e099973: trim_line([(2,0,2),(2,2,4),(2,4,6)], 'abcdef', 0, 3) had 6 columns)
     if callee:
         yield "result-is-a-line-of-the-text", line_wf(result, t)
         yield "every-result-segment-shows-part-of-an-original-segment-at-its-column-minus-start", forall(
@@ -607,7 +485,7 @@ def _trim_inv(v):
     res = v.result
     wf = line_wf(segs, t)
     cols_mono(segs, wf, 1, i)
-    yield "x-is-the-column-where-the-next-segment-starts", v.x == X   # FAILS-ON-TREE (inv-preserve on the path that keeps a whole segment: `x += sc` is missing there)
+    yield "x-is-the-column-where-the-next-segment-starts", v.x == X   # (inv-preserve failed before /repo e099973 on the path that keeps a whole segment: `x += sc` was missing)
     yield "start-is-what-is-left-to-skip", v.start == imax(start0 - X, 0)
     yield "columns-so-far-stay-within-the-range", X <= v.end
     yield "result-holds-the-columns-from-start-to-here", colsum(res, n_segs(res)) == imax(X - start0, 0)
@@ -622,6 +500,7 @@ def _trim_inv(v):
 
 @contract(TL + "trim_line", property="C03", replayable=False)
 class trim_line:
+    contract_overrides = {TL + "LayoutSegment.__init__": layout_segment_init}   # the constructor contract with `constructs` (this file)
     params = dict(segs=LINE, text=TEXT, start=Int, end=Int)
     result = LINE
     raises = ()
@@ -770,6 +649,7 @@ def _cc_ens(a, result, callee=False):
 
 @contract(TL + "calc_coords", property=("C03", "C10"), replayable=False)
 class calc_coords:
+    contract_overrides = {TL + "LayoutSegment.__init__": layout_segment_init}   # the constructor contract with `constructs` (this file)
     params = dict(text=TEXT, layout=LAYOUT, pos=Int, clamp=Int)
     result = Tup(Int, Int)
     raises = ()
@@ -780,3 +660,286 @@ class calc_coords:
 
     def requires(a):
         return both(layout_valid(a.layout, a.text), 0 <= a.pos, a.pos <= tlen(a.text))
+
+
+# ---- calc_line_pos: the text position closest to a column of one line
+
+from contracts.C11_width import width_at  # noqa: E402
+
+
+def line3_ok(line, text):
+    """Segments LayoutSegment accepts, runs within the text, and only the first segment may have negative columns."""
+    return forall(0, n_segs(line), lambda j: both(seg_valid(seg_at(line, j), text), implies(j >= 1, seg_cols(seg_at(line, j)) >= 0)), check_empty=False)
+
+
+def obj_is(o, e):
+    """The LayoutSegment object o was built from segment e."""
+    if o is None or not isinstance(o, Q.SObj):
+        return False
+    return both(o.sc == seg_cols(e), opt_eq(o.offs, seg3_offs(e)),
+                implies(seg_is_run(e), both(neg(_isnone_f(o.end)), val(o.end) == seg3_end(e))), implies(neg(seg_is_run(e)), _isnone_f(o.end)))
+
+
+def char_at_col(text, p, o, e, col):
+    """p is the position calc_text_pos(text, o, e, col) yields: the character of text[o:e] whose cell holds column col
+    (counted from o) -- the end e when the run is shorter."""
+    return both(o <= p, p <= e, W(text, p) - W(text, o) <= col, implies(p < e, W(text, p + 1) - W(text, o) > col))
+
+
+def _none_has_offs(line, lo, hi):
+    j = V.arbitrary("rj")
+    return implies(both(lo <= j, j < hi), neg(seg_has_offs(seg_at(line, j))))
+
+
+def _kept_obj_facts(cp, text, need_run):
+    """Quantifier-free facts about a LayoutSegment kept in closest_pos: it has an offset; in the main loop it is a run
+    (columns > 0) within the text."""
+    f = [neg(_isnone_f(cp.offs)), implies(neg(_isnone_f(cp.end)), both(cp.sc > 0, 0 <= val(cp.offs), val(cp.offs) <= val(cp.end), val(cp.end) <= tlen(text)))]
+    if need_run:
+        f.append(neg(_isnone_f(cp.end)))
+    return both(*f)
+
+
+def _clp_left_inv(v):
+    yield "no-segment-so-far-has-an-offset", _none_has_offs(v.line_layout, 0, v.i_)
+
+
+def _last_offs_is(line, k, hi):
+    """k is the last segment below hi that has an offset."""
+    return both(0 <= k, k < hi, seg_has_offs(seg_at(line, k)), forall(k + 1, hi, lambda j: neg(seg_has_offs(seg_at(line, j))), check_empty=False))
+
+
+def _clp_right_inv(v):
+    line, cp = v.line_layout, v.closest_pos
+    if cp is None:
+        yield "no-segment-so-far-has-an-offset", _none_has_offs(line, 0, v.i_)
+        return
+    yield "kept-segment-has-an-offset-and-lies-in-the-text", _kept_obj_facts(cp, v.text, False)
+    yield "holds-the-last-segment-with-an-offset-so-far", both(isinstance(cp, Q.SObj), exists(0, v.i_, lambda k: both(_last_offs_is(line, k, v.i_), obj_is(cp, seg_at(line, k)))))
+
+
+def _cand_is(line, text, pref, csc, cp, hi, k):
+    """The candidate (column csc, position / segment cp) comes from segment k < hi: its start (column X_k, position
+    offs_k), or -- a run lying wholly left of pref -- its last column (the LayoutSegment is kept to find the position)."""
+    e = seg_at(line, k)
+    xk = colsum(line, k)
+    start = both(csc == xk, V.is_num(cp), eq(cp, val(seg3_offs(e)))) if V.is_num(cp) else False
+    last = both(seg_is_run(e), xk + seg_cols(e) <= pref, csc == xk + seg_cols(e) - 1, obj_is(cp, e)) if isinstance(cp, Q.SObj) else False
+    return both(0 <= k, k < hi, seg_has_offs(e), either(start, last))
+
+
+def _clp_main_inv(v):
+    line, t, pref = v.line_layout, v.text, v.pref_col
+    i = v.i_
+    X = colsum(line, i)
+    wf = line3_ok(line, t)
+    cols_mono(line, wf, 1, i)
+    j = V.arbitrary("rj")
+    cols_mono(line, wf, imax(j, 1), i)
+    cols_mono(line, wf, imax(j + 1, 1), i)
+    ej = seg_at(line, j)
+    vis = both(0 <= j, j < i)
+    yield "current-sc-is-the-column-where-the-next-segment-starts", v.current_sc == X
+    yield "no-run-so-far-holds-the-column", implies(both(vis, seg_is_run(ej)), neg(both(colsum(line, j) <= pref, pref < colsum(line, j) + seg_cols(ej))))
+    csc, cp = v.closest_sc, v.closest_pos
+    if isinstance(cp, V.SOpt):
+        cp = val(cp)   # `closest_pos = s.offs` inside `if s.offs is not None`: the offset itself
+    if csc is None or cp is None:
+        yield "nothing-chosen-only-while-no-offset-seen", both(csc is None, cp is None, implies(vis, neg(seg_has_offs(ej))))
+        return
+    yield "chosen-column-is-not-right-of-here", csc <= X
+    if isinstance(cp, Q.SObj):
+        yield "kept-segment-is-a-run-of-the-text", _kept_obj_facts(cp, t, True)
+    yield "chosen-candidate-comes-from-a-segment-so-far", exists(0, i, lambda k: _cand_is(line, t, pref, csc, cp, i, k))
+    yield "no-segment-start-so-far-is-closer", implies(both(vis, seg_has_offs(ej)), iabs(pref - csc) <= iabs(pref - colsum(line, j)))
+
+
+def _clp_ens(a, result, callee=False):
+    line, t, pref = a.line_layout, a.text, a.pref_col
+    n = n_segs(line)
+    st = cur()
+    j = V.arbitrary("rj")
+    ej = seg_at(line, j)
+    inr = both(0 <= j, j < n)
+    any_offs = exists(0, n, lambda k: seg_has_offs(seg_at(line, k)))
+    yield "no-position-exactly-when-no-segment-has-an-offset", eq(_isnone_f(result), neg(any_offs)) if callee else both(
+        implies(_isnone_f(result), implies(inr, neg(seg_has_offs(ej)))), implies(neg(_isnone_f(result)), any_offs))
+    if _isnone_f(result) is True or (not callee and bool(_isnone_f(result))):
+        return
+    p = val(result)
+    if isinstance(pref, str) and pref == "left":
+        first = lambda k: both(0 <= k, k < n, seg_has_offs(seg_at(line, k)), forall(0, k, lambda q: neg(seg_has_offs(seg_at(line, q))), check_empty=False))  # noqa: E731
+        if callee:
+            yield "left-is-the-offset-of-the-first-segment-that-has-one", forall(0, n, lambda k: implies(first(k), p == val(seg3_offs(seg_at(line, k)))), check_empty=False)
+        else:
+            yield "left-is-the-offset-of-the-first-segment-that-has-one", implies(first(j), p == val(seg3_offs(ej)))
+        return
+    if isinstance(pref, str) and pref == "right":
+        def last_pos(k):
+            e = seg_at(line, k)
+            o = val(seg3_offs(e))
+            return ite(seg_is_run(e), char_at_col(t, p, o, seg3_end(e), seg_cols(e) - 1), p == o)
+        if callee:
+            yield "right-is-the-last-position-of-the-last-segment-that-has-an-offset", forall(0, n, lambda k: implies(_last_offs_is(line, k, n), last_pos(k)), check_empty=False)
+        else:
+            yield "right-is-the-last-position-of-the-last-segment-that-has-an-offset", implies(_last_offs_is(line, j, n), last_pos(j))
+        return
+    # an integer column
+    xj = colsum(line, j)
+    holds = both(seg_is_run(ej), xj <= pref, pref < xj + seg_cols(ej))
+    if callee:
+        yield "a-column-inside-a-run-gives-the-character-whose-cell-it-is", forall(0, n, lambda k: implies(
+            both(seg_is_run(seg_at(line, k)), colsum(line, k) <= pref, pref < colsum(line, k) + seg_cols(seg_at(line, k)),
+                 forall(0, k, lambda q: neg(both(seg_is_run(seg_at(line, q)), colsum(line, q) <= pref, pref < colsum(line, q) + seg_cols(seg_at(line, q)))), check_empty=False)),
+            char_at_col(t, p, val(seg3_offs(seg_at(line, k))), seg3_end(seg_at(line, k)), pref - colsum(line, k))), check_empty=False)
+        return
+    wf = line3_ok(line, t)
+    loc = st.ghost.get("exit_locals", {})
+    k_exit = st.ghost.get("loop_index")
+    if k_exit is not None:
+        # instances of the monotonicity lemma between where the loop stopped and the arbitrary segment
+        cols_mono(line, wf, imax(k_exit, 1), j)
+        cols_mono(line, wf, imax(k_exit + 1, 1), j)
+        cols_mono(line, wf, imax(j, 1), k_exit)
+        cols_mono(line, wf, imax(j + 1, 1), k_exit)
+    first_holder = both(inr, holds, forall(0, j, lambda q: neg(both(seg_is_run(seg_at(line, q)), colsum(line, q) <= pref, pref < colsum(line, q) + seg_cols(seg_at(line, q)))), check_empty=False))
+    yield "a-column-inside-a-run-gives-the-character-whose-cell-it-is", implies(first_holder, char_at_col(t, p, val(seg3_offs(ej)), seg3_end(ej), pref - xj))
+    none_holds = forall(0, n, lambda q: neg(both(seg_is_run(seg_at(line, q)), colsum(line, q) <= pref, pref < colsum(line, q) + seg_cols(seg_at(line, q)))), check_empty=False)
+    csc = loc.get("closest_sc")
+    if csc is None:
+        yield "else-a-position-of-the-line-closest-to-the-column", neg(none_holds)
+        return
+    csc = val(csc)
+    # witness of "there is a candidate column c": the function's closest_sc at exit
+    from_seg = exists(0, n, lambda k: both(seg_has_offs(seg_at(line, k)), either(
+        both(csc == colsum(line, k), p == val(seg3_offs(seg_at(line, k)))),
+        both(seg_is_run(seg_at(line, k)), colsum(line, k) + seg_cols(seg_at(line, k)) <= pref, csc == colsum(line, k) + seg_cols(seg_at(line, k)) - 1,
+             char_at_col(t, p, val(seg3_offs(seg_at(line, k))), seg3_end(seg_at(line, k)), seg_cols(seg_at(line, k)) - 1)))))
+    yield "else-a-position-of-the-line-closest-to-the-column", implies(none_holds, both(
+        from_seg, implies(both(inr, seg_has_offs(ej)), iabs(pref - csc) <= iabs(pref - xj))))
+
+
+CPOS = Union(Const(None), LSEG, Int)
+
+
+@contract(TL + "calc_line_pos", property=("C03", "C10"), replayable=False)
+class calc_line_pos:
+    contract_overrides = {TL + "LayoutSegment.__init__": layout_segment_init}   # the constructor contract with `constructs` (this file)
+    params = dict(text=TEXT, line_layout=LINE3, pref_col=Union(Int, Const("left"), Const("right")))
+    result = Opt(Int)
+    raises = ()
+    ensures = staticmethod(_clp_ens)
+    ensures_callee = staticmethod(lambda a, result: _clp_ens(a, result, True))
+    qf_branching = True
+    loops = {0: Loop(invariant=_clp_left_inv),
+             1: Loop(invariant=_clp_right_inv, shapes={"closest_pos": Union(Const(None), LSEG)}),
+             2: Loop(invariant=_clp_main_inv, shapes={"closest_pos": CPOS, "closest_sc": Union(Const(None), Int)})}
+
+    def requires(a):
+        return line3_ok(a.line_layout, a.text)
+
+
+# ---- calc_pos: the text position closest to a cell of the layout
+
+calc_line_pos.deterministic = True   # a pure function of its arguments (str texts: no encoding state involved)
+
+
+@contract(TL + "calc_line_pos", property=("C03", "C10"), replayable=False, alias="value-only")
+class calc_line_pos_value_only:
+    """calc_line_pos seen only as a deterministic function (same precondition, no postcondition): what calc_pos needs
+    -- it passes positions on, whatever they are.  Strictly weaker than the contract above; verified against the body
+    like it (termination, no exception), and used at calc_pos's call sites instead of it so that calc_pos's
+    obligations do not carry calc_line_pos's quantified postcondition three times."""
+    params = calc_line_pos.params
+    result = Opt(Int)
+    raises = ()
+    deterministic = True
+    qf_branching = True
+    contract_overrides = calc_line_pos.contract_overrides
+    loops = calc_line_pos.loops
+    requires = staticmethod(calc_line_pos.requires)
+
+
+def clp_value(text, row, pref):
+    """The value calc_line_pos(text, row, pref) has (an Optional[int]): the same uninterpreted function of the
+    arguments that a call under contract yields (Contract.apply, `deterministic`), so "the position of row r" in
+    calc_pos's postcondition is literally what the call on that row returned."""
+    from pyvc.protocol import encode_arg, uf_shape_value
+    st = cur()
+    vals = dict(line_layout=row, pref_col=pref, text=text)
+    terms = []
+    for k in sorted(vals):
+        terms.extend(encode_arg(st, vals[k]))
+    return uf_shape_value(st, "fn:calc_line_pos", terms, calc_line_pos.result)
+
+
+def row_has_pos(layout, r):
+    """Line r has a text position at all: some segment of it has an offset (calc_line_pos: no position exactly when
+    no segment has an offset)."""
+    return exists(0, n_segs(_row(layout, r)), lambda k: seg_has_offs(seg_at(_row(layout, r), k)))
+
+
+def layout3_ok(layout, text):
+    return forall(0, Q.seq_len(layout), lambda y: line3_ok(_row(layout, y), text), check_empty=False)
+
+
+def _row_none(layout, text, pref, r):
+    return _isnone_f(clp_value(text, _row(layout, r), pref))
+
+
+def _cp_inv(v):
+    layout, row = v.layout, v.row
+    n = Q.seq_len(layout)
+    ab, be = v.rows_above, v.rows_below
+    la, lb = Q.seq_len(ab), Q.seq_len(be)
+    t = row - la                      # rows looked at on each side so far
+    k = V.arbitrary("k")
+    d = V.arbitrary("d")
+    yield "lists-shrink-in-step", both(0 <= t, la >= 0, lb >= 0, t == (n - 1 - row) - lb)
+    yield "rows-above-still-to-try-nearest-first", forall(0, la, lambda q: Q.seq_get(ab, q) == la - 1 - q, check_empty=False)
+    yield "rows-below-still-to-try-nearest-first", forall(0, lb, lambda q: Q.seq_get(be, q) == n - lb + q, check_empty=False)
+    yield "no-position-on-the-row-nor-within-the-distance-tried", both(
+        _row_none(layout, v.text, v.pref_col, row),
+        implies(both(1 <= d, d <= t), both(_row_none(layout, v.text, v.pref_col, row - d), _row_none(layout, v.text, v.pref_col, row + d))))
+
+
+def _cp_ens(a, result, callee=False):
+    layout, row, t, pref = a.layout, a.row, a.text, a.pref_col
+    n = Q.seq_len(layout)
+    yield "row-is-a-line-of-the-layout", both(0 <= row, row < n)
+    here = clp_value(t, _row(layout, row), pref)
+    yield "position-of-the-row-itself-when-it-has-one", implies(neg(_isnone_f(here)), result == val(here))
+    m = imin(row, n - 1 - row)        # how far the search goes: as long as there are rows on both sides
+    none_upto = lambda dd: forall(1, dd, lambda q: both(_row_none(layout, t, pref, row - q), _row_none(layout, t, pref, row + q)), check_empty=False)  # noqa: E731
+
+    def nearest(d):
+        up, down = clp_value(t, _row(layout, row - d), pref), clp_value(t, _row(layout, row + d), pref)
+        return implies(both(1 <= d, d <= m, _isnone_f(here), none_upto(d)), both(
+            implies(neg(_isnone_f(up)), result == val(up)),
+            implies(both(_isnone_f(up), neg(_isnone_f(down))), result == val(down))))
+
+    if callee:
+        yield "else-position-of-the-nearest-row-that-has-one-above-before-below", forall(1, m + 1, nearest, check_empty=False)
+    else:
+        yield "else-position-of-the-nearest-row-that-has-one-above-before-below", nearest(V.arbitrary("d"))
+    yield "zero-when-no-row-in-reach-has-a-position", implies(both(_isnone_f(here), none_upto(m + 1)), result == 0)
+
+
+@contract(TL + "calc_pos", property=("C03", "C10"), replayable=False)
+class calc_pos:
+    contract_overrides = {TL + "calc_line_pos": calc_line_pos_value_only}
+    params = dict(text=TEXT, layout=LAYOUT, pref_col=Union(Int, Const("left"), Const("right")), row=Int)
+    result = Int
+    raises = (ValueError,)
+    raises_iff = {ValueError: lambda a: either(a.row < 0, a.row >= Q.seq_len(a.layout))}
+    ensures = staticmethod(_cp_ens)
+    ensures_callee = staticmethod(lambda a, result: _cp_ens(a, result, True))
+    qf_branching = True
+    loops = {0: Loop(invariant=_cp_inv, decreases=lambda v: Q.seq_len(v.rows_above),
+                     shapes={"rows_above": ListOf(Int), "rows_below": ListOf(Int), "pos": Opt(Int), "r": Int})}
+
+    def requires(a):
+        return layout3_ok(a.layout, a.text)
+
+    def on_raise(a, exc):
+        yield "only-for-a-row-outside-the-layout", either(a.row < 0, a.row >= Q.seq_len(a.layout))
